@@ -49,6 +49,11 @@ def gen_sample(rng, n, kind, scale):
 
 def gen_case(rng, k):
     scale = rng.choice([1.0, 1.0, 1.0, 2.0 ** 40, 2.0 ** -40])
+    # dtype of the source sample x, of the mapped values and of y2; the target sample y is always float64
+    # (an integer target with float values is a separate matter: see the C16 report, it truncates on the unchanged tree)
+    dtype = rng.choice(["float64"] * 6 + ["float32"] * 2 + ["int64"] * 2)
+    if dtype == "int64":
+        return gen_case_int(rng, k)
     kinds = ["ties", "ties", "tiefree", "tiefree", "dyadic", "positive", "constant"]
     nx = rng.choice([1, 2, 2, 3, 4, 5, 6, 7, 8, 9, 10, 11, 12])
     equal = rng.random() < 0.5
@@ -78,7 +83,34 @@ def gen_case(rng, k):
     ps = rng.sample(sorted(ps), min(10, len(ps)))
     ps += [0.0, 1.0] + [rng.randint(0, 256) / 256.0 for _ in range(3)] + [rng.randint(0, 2 ** 30) / 2.0 ** 30]
     ps = np.array(sorted(set(ps)), dtype=float)
-    return dict(k=k, scale=scale, kind_x=kx, x=x, y=y, y2=y2, vals=vals, ps=ps)
+    if dtype == "float32":
+        x, y2, vals = x.astype(np.float32), y2.astype(np.float32), vals.astype(np.float32)
+    return dict(k=k, scale=scale, kind_x=kx, x=x, y=y, y2=y2, vals=vals, ps=ps, dtype=dtype)
+
+
+def gen_case_int(rng, k):
+    """integer-valued source sample and values (e.g. cloud cover in oktas / percent), float64 target"""
+    nx = rng.choice([1, 2, 3, 4, 5, 6, 7, 8, 9, 10, 11, 12])
+    equal = rng.random() < 0.5
+    ny = nx if equal else rng.randint(1, 12)
+    if equal and rng.random() < 0.7:
+        kx, x = "tiefree", np.array(rng.sample(range(-20, 60), nx), dtype=np.int64)
+    else:
+        kx, x = "ties", np.array([rng.randint(0, 8) for _ in range(nx)], dtype=np.int64)
+    y = gen_sample(rng, ny, rng.choice(["ties", "tiefree", "dyadic", "positive"]), 1.0)
+    y2 = np.array(rng.sample(range(-50, 50), nx), dtype=np.int64)
+    lo, hi = int(x.min()), int(x.max())
+    vals = np.array([lo, hi, lo - 3, hi + 2, lo - 1, hi + 1, (lo + hi) // 2] + [int(v) for v in rng.sample(list(x), min(3, nx))]
+                    + [rng.randint(-25, 65) for _ in range(4)], dtype=np.int64)
+    ps = {0.0, 1.0}
+    for n in {nx, ny}:
+        for kk in range(n + 1):
+            if n > 1:
+                ps.add(min(1.0, kk / (n - 1)))
+            ps.add(kk / n)
+    ps = rng.sample(sorted(ps), min(10, len(ps))) + [0.0, 1.0] + [rng.randint(0, 256) / 256.0 for _ in range(3)]
+    ps = np.array(sorted(set(ps)), dtype=float)
+    return dict(k=k, scale=1.0, kind_x=kx, x=x, y=y, y2=y2, vals=vals, ps=ps, dtype="int64")
 
 
 def hist_of(x):
@@ -90,7 +122,7 @@ def hist_of(x):
 
 def case_json(c):
     return {"x": c["x"].tolist(), "y": c["y"].tolist(), "y2": c["y2"].tolist(), "vals": c["vals"].tolist(), "ps": c["ps"].tolist(),
-            "scale": c["scale"]}
+            "scale": c["scale"], "dtype": c.get("dtype", "float64")}
 
 
 # ------------------------------------------------------------------ real code (quiet)
@@ -163,7 +195,10 @@ def correspondence(c, corr):
     from ibicus.utils import _utils as U
 
     x, y, y2, vals, ps, scale = c["x"], c["y"], c["y2"], c["vals"], c["ps"], c["scale"]
-    R = C.rlist
+
+    def R(a):  # float32 / int64 values are exactly representable in float64
+        return C.rlist(np.asarray(a, dtype=np.float64))
+
     dv = C.rat(Fraction(scale) / 2 ** 40)
     dp = C.rat(DP)
     sy = float(np.abs(y).max()) + float(np.abs(vals).max())
@@ -206,7 +241,7 @@ def correspondence(c, corr):
     if np.unique(y2).size == y2.size:
         corr.add(f"sortlike {R(x)} {R(y2)}", "exact", real(U.sort_array_like_another_one, x, y2), 0.0, f"{tag} sort_array_like_another_one")
     # interp_sorted_cdf_vals_on_given_length
-    cdf_vals = np.sort(np.array([Fraction(int(v * 64 / scale) % 65, 64) for v in x], dtype=float))
+    cdf_vals = np.sort(np.array([Fraction(int(float(v) * 64 / scale) % 65, 64) for v in x], dtype=float))
     m = 1 + c["k"] % 15
     corr.add(f"interplen {R(cdf_vals)} {m}", "plain", real(U.interp_sorted_cdf_vals_on_given_length, cdf_vals, m), 1.0, f"{tag} interp_sorted_cdf_vals_on_given_length")
     # threshold_cdf_vals
